@@ -263,6 +263,16 @@ pub fn cases(tier: Tier) -> Vec<GCase> {
         });
         push(g, if a == zero() || a == one() { Expect::Sat(vec![]) } else { Expect::Unsat }, "component_boolean");
     }
+    // aliased operands: the same witness on several inputs
+    for a in small.iter().take(6) {
+        let a = *a;
+        push(Gadget::new("component_select/aliased-values", vec![one(), a], |c, ins| Ok(vec![c.component_select(ins[0], ins[1], ins[1])])), Expect::Sat(vec![a]), "component_select/aliased");
+        push(Gadget::new("component_select/aliased-bit", vec![a], |c, ins| Ok(vec![c.component_select(ins[0], ins[0], ins[0])])), Expect::Sat(vec![a * a + (one() - a) * a]), "component_select/aliased");
+        push(Gadget::new("component_select_one/aliased", vec![a], |c, ins| Ok(vec![c.component_select_one(ins[0], ins[0])])), Expect::Sat(vec![one() - a + a * a]), "component_select_one/aliased");
+        push(Gadget::new("component_select_zero/aliased", vec![a], |c, ins| Ok(vec![c.component_select_zero(ins[0], ins[0])])), Expect::Sat(vec![a * a]), "component_select_zero/aliased");
+        push(Gadget::new("assert_equal/aliased", vec![a], |c, ins| { c.assert_equal(ins[0], ins[0]); Ok(vec![]) }), Expect::Sat(vec![]), "assert_equal/aliased");
+        push(Gadget::new("gate_mul/aliased", vec![a], |c, ins| Ok(vec![c.gate_mul(Constraint::new().mult(1).fourth(1).a(ins[0]).b(ins[0]).d(ins[0]))])), Expect::Sat(vec![a * a + a]), "gate_mul/aliased");
+    }
     // selects: bit over the alphabet (incl. non-boolean), values over a smaller one
     for bit in &small {
         for a in small.iter().take(6) {
